@@ -4,7 +4,7 @@ SPECIFICATION Spec
 CONSTANTS
   Exhaustive = TRUE
   Rewrites = FALSE
-  MaxMsgs = 2
+  MaxMsgs = 1
   Uids = {101, 103}
   SysFlags = {"Seen"}
   Kws = {}
